@@ -1,0 +1,135 @@
+//! Verification hooks. Compiled only with cargo feature `verif-hooks`
+//! (or rustc `--cfg verif_shuttle`); never part of a normal build.
+//!
+//! With the feature on but nothing armed (poison seed `0`, CPU mask all ones)
+//! the crate behaves exactly like the normal build.
+
+#![allow(missing_docs, clippy::pedantic)]
+
+use std::cell::Cell;
+
+// ======================================================================
+// H1 - POISON OF DEAD WORKING MEMORY
+
+thread_local! {
+    static POISON: Cell<u64> = const { Cell::new(0) };
+    static POISONED_BYTES: Cell<u64> = const { Cell::new(0) };
+}
+
+/// Arms (`seed != 0`) or disarms (`seed == 0`) poisoning on this thread.
+pub fn set_poison(seed: u64) {
+    POISON.with(|p| p.set(seed));
+}
+
+/// Returns number of bytes poisoned on this thread so far.
+pub fn poisoned_bytes() -> u64 {
+    POISONED_BYTES.with(Cell::get)
+}
+
+/// Overwrites `data` with seeded pseudo-random bytes if poisoning is armed.
+///
+/// Must only be called where the contract says the contents are dead.
+pub(crate) fn poison(data: &mut [[u8; 64]]) {
+    let mut state = POISON.with(Cell::get);
+    if state == 0 {
+        return;
+    }
+    // Seeds with top byte 0xFF mean "all ones" poison, others xorshift64*.
+    if state >> 56 == 0xFF {
+        data.fill([0xFF; 64]);
+    } else {
+        for chunk in data.iter_mut() {
+            for word in chunk.chunks_exact_mut(8) {
+                state ^= state >> 12;
+                state ^= state << 25;
+                state ^= state >> 27;
+                let value = state.wrapping_mul(0x2545_F491_4F6C_DD1D);
+                word.copy_from_slice(&value.to_le_bytes());
+            }
+        }
+        if state >> 56 == 0xFF {
+            state ^= 1 << 63;
+        }
+        POISON.with(|p| p.set(state));
+    }
+    POISONED_BYTES.with(|p| p.set(p.get() + 64 * data.len() as u64));
+}
+
+// ======================================================================
+// H2 - CPU FEATURE MASK
+
+pub const MASK_AVX2: u32 = 1;
+pub const MASK_SSSE3: u32 = 2;
+pub const MASK_NEON: u32 = 4;
+
+thread_local! {
+    static CPU_MASK: Cell<u32> = const { Cell::new(u32::MAX) };
+}
+
+/// Restricts which detected CPU features `DefaultEngine` may see on this thread.
+///
+/// Can only narrow real detection, never widen it.
+pub fn set_cpu_mask(mask: u32) {
+    CPU_MASK.with(|m| m.set(mask));
+}
+
+pub fn cpu_mask() -> u32 {
+    CPU_MASK.with(Cell::get)
+}
+
+pub fn feature_allowed(name: &str) -> bool {
+    let bit = match name {
+        "avx2" => MASK_AVX2,
+        "ssse3" => MASK_SSSE3,
+        "neon" => MASK_NEON,
+        _ => return true,
+    };
+    cpu_mask() & bit != 0
+}
+
+// ======================================================================
+// H3 - ISA TRACE
+
+pub const ISA_AVX2: usize = 0;
+pub const ISA_SSSE3: usize = 1;
+pub const ISA_NEON: usize = 2;
+
+pub const PRIM_FFT: usize = 0;
+pub const PRIM_IFFT: usize = 1;
+pub const PRIM_MUL: usize = 2;
+pub const PRIM_EVAL_POLY: usize = 3;
+
+/// `hits[isa][primitive]` counts entries into `#[target_feature]` functions,
+/// `calls[primitive]` counts calls of `DefaultEngine` trait methods.
+#[derive(Clone, Copy, Debug, Default, PartialEq, Eq)]
+pub struct Trace {
+    pub hits: [[u64; 4]; 3],
+    pub calls: [u64; 4],
+}
+
+thread_local! {
+    static TRACE: Cell<Trace> = const { Cell::new(Trace { hits: [[0; 4]; 3], calls: [0; 4] }) };
+}
+
+#[inline]
+pub(crate) fn trace_hit(isa: usize, primitive: usize) {
+    TRACE.with(|t| {
+        let mut trace = t.get();
+        trace.hits[isa][primitive] += 1;
+        t.set(trace);
+    });
+}
+
+#[inline]
+pub(crate) fn trace_call(primitive: usize) {
+    TRACE.with(|t| {
+        let mut trace = t.get();
+        trace.calls[primitive] += 1;
+        t.set(trace);
+    });
+}
+
+/// Returns the trace of this thread and clears it.
+pub fn take_trace() -> Trace {
+    TRACE.with(Cell::take)
+}
